@@ -7,6 +7,14 @@ KERNEL_NOTE = ('Trusted: Lean kernel; axioms propext/Classical.choice/Quot.sound
                'deterministic fakes on the Python side and by the recorded answers on the model side); kernel contracts are hypotheses; '
                'exact field arithmetic (IEEE rounding not modelled).')
 CHECKS = {
+ 'C03': {
+  'text': 'Proof (partial, growing): for all L>=1 (L=1 and L=2 special cases included), d, independent bond profiles over any commutative ring: MPS a+-b, MPO a+-b, MPO product, '
+          'apply_operator and the identity MPO have the digit-indexed dense meaning of the corresponding dense expression; merging neighbouring tensors preserves the dense meaning and '
+          'as_vector/as_matrix list exactly the amplitudes in row-major digit order (9+ theorems). from_vector(tol=0), split/merge at tol 0 and sparse=dense form are carried by the '
+          'exact correspondence (incl. scipy sparse form) until their theorems land (see not_proved in the evidence).',
+  'note': KERNEL_NOTE + ' SVDContract is an assumption about np.linalg.svd where used.',
+  'design_ref': 'DESIGN.md §7 C03',
+ },
  'C18': {
   'text': 'Proof (full): for every well-formed bipartite graph (and BipartiteGraph.__init__ always yields one) the model of Hopcroft-Karp terminates within its fuel, '
           'returns a valid matching of maximum size, and minimum_vertex_cover returns an in-range duplicate-free cover touching every edge whose size equals the matching '
